@@ -20,6 +20,7 @@ EXPLANATION = (
     ' (R4, strengthened) the shape guard of every same-form arm is DECIDED over the finite table of operand shapes {1,2,3}^2 x {1,2,3}^2 admitted by the storage forms: it must fire for every unequal pair and for no equal pair; (R7) the per-variant arms of Value::kind/shape/is_matrix/is_scalar keep their frozen sibling partition (deviant-sibling check).'
     ' (R8) the output buffer a dispatch arm allocates (`DMatrix/DVector/RowDVector::from_element(shape.., default)`) has the shape of the (equal-shaped) matrix operand(s), decided over the finite shape table for every unary and binary arm.'
     ' (R9) scalar semantics of the exact kind: every arithmetic / comparison operator impl of R64 applies that operator to the wrapped Rational64 of its operands and calls nothing else (no detour through f64).'
+    ' (R10) the dispatch table is always consulted: the statements an operator compiler ((Value, Value) -> MResult<Box<dyn MechFunction>>, found by signature) runs in front of its dispatch expression contain no `?` and no `return Err`; an early return only hands over to another operator compiler (re-dispatch on promoted operands).'
 )
 
 # oracle: operator enum variant -> operator the kernel must apply (from the property statement / spec 6.1.3)
@@ -1058,6 +1059,8 @@ def run(F, rep, tier):
     from rules.k2_targets import run_k2
     run_k2(F, rep, "C01", "C01-R7")
     run_r9(F, rep)
+    from rules import c01_predispatch
+    c01_predispatch.run(F, rep)   # R10: no error exit in front of the dispatch table
 
 
 OPS = {"Add": "+", "Sub": "-", "Mul": "*", "Div": "/", "Rem": "%", "AddAssign": "+=", "SubAssign": "-=", "MulAssign": "*=", "DivAssign": "/=", "Neg": "-",
